@@ -23,7 +23,9 @@ PROBED = UNIVERSE + [NEVER]
 
 RULE = ("A real pyrtma.Client on the simulated network against the real manager. Hypothesis draws sequences (<=25) of subscribe / "
         "unsubscribe / pause_subscription / resume_subscription with lists over a 6-type universe (duplicates, types already in the "
-        "target state, ALL_MESSAGE_TYPES alone or mixed), unsubscribe_from_all / pause_all_subscriptions / resume_all_subscriptions, "
+        "target state, ALL_MESSAGE_TYPES alone or mixed; passed as list, tuple, set, generator or iterator; optionally with one entry that "
+        "cannot be a message type - out-of-range int, str, float, None - after which the two sides must still agree and a refused "
+        "request must have changed nothing), unsubscribe_from_all / pause_all_subscriptions / resume_all_subscriptions, "
         "and subscription_context / paused_subscription_context entered with lists overlapping the current state; new sessions of the "
         "same Client object (disconnect()+connect(), or connect() after the connection was lost) in between; and in one configuration "
         "a second instance of the same module (same static id, both allow_multiple) issuing a third of the operations, each instance "
@@ -39,6 +41,7 @@ ASSUME = [
     "contexts entered with a list containing ALL_MESSAGE_TYPES are outside clause (iv) of the statement and only checked for agreement",
 ]
 
+BAD_ENTRIES = [2 ** 31, -(2 ** 31) - 1, "x", 3.0, None, 2 ** 40]
 OPS = ["subscribe", "unsubscribe", "pause_subscription", "resume_subscription"]
 BULK = ["unsubscribe_from_all", "pause_all_subscriptions", "resume_all_subscriptions"]
 CTX = ["subscription_context", "paused_subscription_context"]
@@ -186,11 +189,35 @@ class C02World:
         was_all = c._sub_all if hasattr(c, "_sub_all") else (ALL in sub0)
         all_state = ALL in sub0
         raised = None
+        bad_raised = None
+
+        def arg():
+            # the argument as the caller passes it: any iterable of ints (list, tuple, set, generator, iterator), possibly
+            # with one entry that cannot be a message type
+            items = list(types)
+            if "bad" in op:
+                items.insert(op.get("bad_at", 0) % (len(items) + 1), BAD_ENTRIES[op["bad"]])
+            kind = op.get("container", "list")
+            if kind == "tuple":
+                return tuple(items)
+            if kind == "set" and "bad" not in op:
+                return set(items)
+            if kind == "generator":
+                return (x for x in items)
+            if kind == "iterator":
+                return iter(items)
+            return items
+
         with warnings.catch_warnings():
             warnings.simplefilter("ignore")
             try:
                 if name in OPS:
-                    getattr(c, name)(list(types))
+                    try:
+                        getattr(c, name)(arg())
+                    except (TypeError, ValueError, OverflowError) as e:
+                        if "bad" not in op:
+                            raise
+                        bad_raised = e
                 elif name in BULK:
                     getattr(c, name)()
                 elif name in CTX:
@@ -206,7 +233,14 @@ class C02World:
                 raised = e
         self.cs.pump()
         self.alive()
-        sub1, paused1, d1 = self.check_agreement(f"{name}({types})")
+        sub1, paused1, d1 = self.check_agreement(f"{name}({types})" + (f" with the invalid entry {BAD_ENTRIES[op['bad']]!r}" if "bad" in op else ""))
+        if "bad" in op and name in OPS:
+            # a request with an entry that cannot be a message type: refused as a whole, or the valid part applied on both
+            # sides - the agreement checked above is what the statement demands; additionally a refused request changes nothing
+            if bad_raised is not None and raised is None and (sub1, paused1) != (sub0, paused0):
+                self.viol("invalid-entry-refused-but-changed", f"{name}({types} + {BAD_ENTRIES[op['bad']]!r}) raised {type(bad_raised).__name__} but the "
+                          f"client's sets changed: {sorted(sub0)}/{sorted(paused0)} -> {sorted(sub1)}/{sorted(paused1)}")
+            return
         indiv = [t for t in types if t != ALL]
         if raised is not None:
             # (iii) refused: nothing changes anywhere
@@ -309,7 +343,11 @@ def st_op():
 def _st_op():
     return st.one_of(
         st.tuples(st.sampled_from(OPS), st_types()).map(lambda x: {"op": x[0], "types": x[1]}),
-        st.tuples(st.sampled_from(OPS), st_types()).map(lambda x: {"op": x[0], "types": x[1]}),
+        st.tuples(st.sampled_from(OPS), st_types(), st.sampled_from(["tuple", "set", "generator", "iterator"])).map(
+            lambda x: {"op": x[0], "types": x[1], "container": x[2]}),
+        st.tuples(st.sampled_from(OPS), st_types(), st.integers(0, len(BAD_ENTRIES) - 1), st.integers(0, 5),
+                  st.sampled_from(["list", "tuple", "generator"])).map(
+            lambda x: {"op": x[0], "types": x[1], "bad": x[2], "bad_at": x[3], "container": x[4]}),
         st.sampled_from(BULK).map(lambda n: {"op": n}),
         st.tuples(st.sampled_from(CTX), st_types(), st.booleans()).map(lambda x: {"op": x[0], "types": x[1], "probe_inside": x[2]}),
         st.tuples(st.sampled_from(["clean", "lost", "lost"]), st.booleans()).map(lambda x: {"op": "reconnect", "how": x[0], "resume_all": x[1]}),
